@@ -11,6 +11,7 @@ import (
 	"encoding/pem"
 	"errors"
 	"net/url"
+	"time"
 )
 
 func init() {
@@ -18,6 +19,7 @@ func init() {
 	vhRegister("vh_C07_attr_twin", vh_C07_attr_twin)
 	vhRegister("vh_C07_step", vh_C07_step)
 	vhRegister("vh_C07_pools", vh_C07_pools)
+	vhRegister("vh_C10_certconstraints", vh_C10_certconstraints)
 }
 
 // ---- stubs ------------------------------------------------------------------
@@ -46,6 +48,10 @@ func vhDecodeAndParse(pemBytes []byte) (*pem.Block, interface{}, error) {
 
 var vhVerifyCalls int
 var vhVerifyNilRoots bool
+var vhVerifyAtCertDates bool
+
+// validity period of the model certificates (non-zero, so that it can be told from "now")
+var vhNotBefore, vhNotAfter = time.Unix(1600000000, 0).UTC(), time.Unix(1900000000, 0).UTC()
 var vhVerifyRootsOK bool
 
 func vhCertVerify(c *x509.Certificate, opts x509.VerifyOptions) ([][]*x509.Certificate, error) {
@@ -57,7 +63,14 @@ func vhCertVerify(c *x509.Certificate, opts x509.VerifyOptions) ([][]*x509.Certi
 	if opts.Roots == nil {
 		vhVerifyNilRoots = true // crypto/x509 reads nil roots as "the system trust store"
 	}
-	if vUFBool("chain-ok", c.Subject.CommonName) {
+	// "at verification time": a chain judged at an instant taken from the certificate itself (its own
+	// NotBefore / NotAfter) is another question with another answer
+	oracle := "chain-ok"
+	if !opts.CurrentTime.IsZero() && (opts.CurrentTime.Equal(c.NotBefore) || opts.CurrentTime.Equal(c.NotAfter)) {
+		oracle = "chain-ok-at-the-certificates-own-dates"
+		vhVerifyAtCertDates = true
+	}
+	if vUFBool(oracle, c.Subject.CommonName) {
 		return [][]*x509.Certificate{{c}}, nil
 	}
 	if vBool("verify.empty-no-error") {
@@ -121,7 +134,8 @@ func vspecAttr(constraints, values []string) bool {
 	return len(seen) == len(cs)
 }
 
-func vhAttrVal(tag string) string { return vPick(tag, "*", "", "a", "b") }
+// the catalogue has values that differ only in letter case or by a trailing dot: "exactly the listed values"
+func vhAttrVal(tag string) string { return vPick(tag, "*", "", "a", "b", "A", "a.") }
 
 func vhAttrList(tag string, n int) []string {
 	var l []string
@@ -163,12 +177,13 @@ func vh_C07_step(a []int) {
 	nc, kind := a[0], a[1]
 	vhVerifyCalls = 0
 	vhRootPool, vhIntermPool = x509.NewCertPool(), x509.NewCertPool()
-	cn := vPick("cert.cn", "a", "b", "")
+	cn := vPick("cert.cn", "a", "b", "", "A", "a.")
 	dns := vhAttrList("cert.dns", vChoice("cert.ndns", 2))
 	mails := vhAttrList("cert.mail", vChoice("cert.nmail", 2))
-	orgs := []string{vPick("cert.org", "a", "b")}
+	orgs := []string{vPick("cert.org", "a", "b", "A", "a.")}
 	uris := vhAttrList("cert.uri", vChoice("cert.nuri", 2))
-	cert := &x509.Certificate{Subject: pkix.Name{CommonName: cn, Organization: orgs}, DNSNames: dns, EmailAddresses: mails, URIs: vhURIs(uris)}
+	cert := &x509.Certificate{Subject: pkix.Name{CommonName: cn, Organization: orgs}, DNSNames: dns, EmailAddresses: mails, URIs: vhURIs(uris), NotBefore: vhNotBefore, NotAfter: vhNotAfter}
+	vhVerifyAtCertDates = false
 	vhParseErr = kind == 2
 	if kind == 1 {
 		vhParsedObj = "not a certificate"
@@ -205,7 +220,64 @@ func vh_C07_step(a []int) {
 	if vhVerifyCalls > 0 {
 		vAssert("C07.chain-verified-against-the-layout-pools", vhVerifyRootsOK)
 	}
+	if err == nil {
+		vAssert("C07.accepted-certificates-chain-at-verification-time", chain)
+	}
 	vReach("C07.end")
+}
+
+func vhSameStrings(a, b []string) bool {
+	if len(a) != len(b) || (a == nil) != (b == nil) {
+		return false
+	}
+	same := true
+	for i := range a {
+		same = vAnd(same, vEqStr(a[i], b[i]))
+	}
+	return same
+}
+
+// vh_C10_certconstraints: checking a certificate against a step's constraints does not modify the step (the
+// caller's layout) and gives the same verdict when it is repeated on the same step object.  Values differing only in
+// letter case or by a trailing dot are in the catalogue.
+// a = {#constraints of the step}
+func vh_C10_certconstraints(a []int) {
+	vhRootPool, vhIntermPool = x509.NewCertPool(), x509.NewCertPool()
+	vhParseErr = false
+	cn, org, dns, mail, uri := vPick("cert.cn", "a", "A"), vPick("cert.org", "a", "A"), vPick("cert.dns", "a", "A", "a."), vPick("cert.mail", "a", "A"), vPick("cert.uri", "a", "A")
+	mk := func() *x509.Certificate {
+		return &x509.Certificate{Subject: pkix.Name{CommonName: cn, Organization: []string{org}}, DNSNames: []string{dns}, EmailAddresses: []string{mail},
+			URIs: vhURIs([]string{uri}), NotBefore: vhNotBefore, NotAfter: vhNotAfter}
+	}
+	step := Step{Type: "step", SupplyChainItem: SupplyChainItem{Name: "s"}}
+	var saved []CertificateConstraint
+	for i := 0; i < a[0]; i++ {
+		c := CertificateConstraint{CommonName: vPick("c.cn", "*", "a", "A"), DNSNames: []string{vPick("c.dns", "*", "a", "A", "a."), "b"}[:1+vChoice("c.ndns", 2)],
+			Emails: []string{vPick("c.mail", "*", "a", "A")}, Organizations: []string{vPick("c.org", "*", "a", "A")},
+			Roots: []string{vPick("c.roots", "*", "r1", "R1")}, URIs: []string{vPick("c.uri", "*", "a", "A")}}
+		step.CertificateConstraints = append(step.CertificateConstraints, c)
+		saved = append(saved, CertificateConstraint{CommonName: c.CommonName, DNSNames: append([]string{}, c.DNSNames...), Emails: append([]string{}, c.Emails...),
+			Organizations: append([]string{}, c.Organizations...), Roots: append([]string{}, c.Roots...), URIs: append([]string{}, c.URIs...)})
+	}
+	rootIDs := []string{"r1"}
+	key := Key{KeyID: "k", KeyVal: KeyVal{Certificate: "PEM"}}
+	// every call parses the certificate anew
+	vhParsedObj = mk()
+	e1 := step.CheckCertConstraints(key, rootIDs, vhRootPool, vhIntermPool)
+	vhParsedObj = mk()
+	e2 := step.CheckCertConstraints(key, rootIDs, vhRootPool, vhIntermPool)
+	vObserve("certconstraints", e1 == nil, e2 == nil)
+	vAssert("C10.same-verdict-when-repeated-on-the-same-step", (e1 == nil) == (e2 == nil))
+	untouched := len(step.CertificateConstraints) == len(saved) && len(rootIDs) == 1 && rootIDs[0] == "r1" && key.KeyVal.Certificate == "PEM" && key.KeyID == "k"
+	for i, c := range step.CertificateConstraints {
+		if i < len(saved) {
+			w := saved[i]
+			untouched = vAnd(untouched, vAnd(vEqStr(c.CommonName, w.CommonName), vAnd(vhSameStrings(c.DNSNames, w.DNSNames), vAnd(vhSameStrings(c.Emails, w.Emails),
+				vAnd(vhSameStrings(c.Organizations, w.Organizations), vAnd(vhSameStrings(c.Roots, w.Roots), vhSameStrings(c.URIs, w.URIs)))))))
+		}
+	}
+	vAssert("C10.the-steps-constraints-are-not-modified", untouched)
+	vReach("C10.end")
 }
 
 // vh_C07_pools: LoadLayoutCertificates puts root CAs into the root pool only and
